@@ -99,9 +99,19 @@ def prefilter(ops, rounds=12):
     ops = list(ops)
     for _ in range(rounds):
         ml = model_lines(ops)
+        ro = set()          # handle ids opened READONLY so far (a store through one is outside the contract: the model faults)
+        ro_wr = set()
+        for i, o in enumerate(ops):
+            t = o.split()
+            if "new-shm" in t and t[-1] == "ro":
+                ro.add(t[t.index("new-shm") + 1])
+            elif "new-shm" in t or "new-sem" in t:
+                ro.discard(t[t.index("new-shm" if "new-shm" in t else "new-sem") + 1])
+            elif len(t) == 5 and t[1] == "wr" and t[2] in ro:
+                ro_wr.add(i)
         # also an access the spec itself calls a fault (offset not below the reported size): out of contract
         bad = [i for i, l in enumerate(ml) if l == "bad-op" or "would-block" in l.split(" SPECDIFF")[0] or "out-of-fuel" in l
-               or (l.endswith("=> fault") and " SPECDIFF" not in l)]
+               or (l.endswith("=> fault") and " SPECDIFF" not in l) or (i in ro_wr and i < len(ml))]
         if not bad:
             return ops
         drop = set(bad)
@@ -351,12 +361,12 @@ class Sim:
             self.ctr[self.nxt] = init
             self.hs[h] = dict(k="sem", w=w, n=n, inc=self.nxt, own=True)
 
-    def new_shm(self, w, h, n, size):
+    def new_shm(self, w, h, n, size, ro=False):
         if n in self.shm:
             i = self.shm[n]
             real = self.segsize[i]
             rep = real if size == 0 or real < size else size
-            self.hs[h] = dict(k="shm", w=w, n=n, inc=i, own=False, size=rep)
+            self.hs[h] = dict(k="shm", w=w, n=n, inc=i, own=False, size=rep, ro=ro)
             return True
         if size == 0:
             return False
@@ -364,7 +374,7 @@ class Sim:
         self.shm[n] = self.nxt
         self.segsize[self.nxt] = size
         self.lock[self.nxt] = 1
-        self.hs[h] = dict(k="shm", w=w, n=n, inc=self.nxt, own=True, size=size)
+        self.hs[h] = dict(k="shm", w=w, n=n, inc=self.nxt, own=True, size=size, ro=ro)
         return True
 
     def free(self, h):
@@ -402,7 +412,7 @@ def gen_history(rng, chk, n, sem_w=1.0, shm_w=1.0, obs_every=1, kills=True):
                 h = sim.free_h(rng)
                 if h is None:
                     continue
-                nme, init, create = rng.randrange(3), rng.choice([0, 1, 1, 2, 3]), rng.random() < 0.3
+                nme, init, create = rng.randrange(NN), rng.choice([0, 1, 1, 2, 3, 3, 300 if rng.random() < 0.3 else 2]), rng.random() < 0.3
                 op = "%d new-sem %d s%d %d %s" % (w, h, nme, init, "CREATE" if create else "OPEN")
                 chk.bump("new-sem " + ("CREATE" if create else "OPEN") + (" existing" if nme in sim.sem else " fresh"))
                 sim.new_sem(w, h, nme, init, create)
@@ -434,7 +444,8 @@ def gen_history(rng, chk, n, sem_w=1.0, shm_w=1.0, obs_every=1, kills=True):
                 h = sim.free_h(rng)
                 if h is None:
                     continue
-                nme = rng.randrange(3)
+                nme = rng.randrange(NN)
+                ro = rng.random() < 0.2
                 if nme in sim.shm:
                     real = sim.segsize[sim.shm[nme]]
                     size = rng.choice([0, real, max(1, real // 2), real + 1, 1, rng.choice(SIZES), real - 1 if real > 1 else 1, real + PAGE])
@@ -442,12 +453,16 @@ def gen_history(rng, chk, n, sem_w=1.0, shm_w=1.0, obs_every=1, kills=True):
                 else:
                     size = rng.choice(SIZES + [0] if rng.random() < 0.1 else SIZES)
                     chk.bump("new-shm fresh" + (" zero" if size == 0 else ""))
-                op = "%d new-shm %d m%d %d" % (w, h, nme, size)
-                sim.new_shm(w, h, nme, size)
+                op = "%d new-shm %d m%d %d%s" % (w, h, nme, size, " ro" if ro else "")
+                if ro:
+                    chk.bump("new-shm READONLY")
+                sim.new_shm(w, h, nme, size, ro)
             elif c < 0.45:
-                h = rng.choice(shms)
-                op = "%d wr %d %d %d" % (w, h, offsets(rng, sim.hs[h]["size"]), rng.randrange(1, 256))
-                chk.bump("write")
+                rw = [x for x in shms if not sim.hs[x].get("ro")]
+                if rw:
+                    h = rng.choice(rw)
+                    op = "%d wr %d %d %d" % (w, h, offsets(rng, sim.hs[h]["size"]), rng.choice([0, 255, rng.randrange(256), rng.randrange(1, 256)]))
+                    chk.bump("write")
             elif c < 0.60:
                 h = rng.choice(shms)
                 op = "%d rd %d %d" % (w, h, offsets(rng, sim.hs[h]["size"]))
@@ -523,6 +538,28 @@ def schedules(la, lb):
         for p in pos:
             s[p] = "a"
         yield "".join(s)
+
+
+def run_expect(chk, fam, ops, expect, label):
+    """a scenario the model cannot express (a system call failing for a reason outside the modelled contract): the
+    API-visible part of every answer is compared with what the property statement says, written out by hand.
+    `expect`: one entry per op, None = not judged, a string = API view, a callable = predicate on the API view"""
+    text = "".join(o + "\n" for o in ops)
+    rc, out, err = fam.run_c(text)
+    got = [spec_view("", l) for l in out.splitlines()]
+    chk.count("\n".join(ops), nontrivial=True)
+    for i, e in enumerate(expect):
+        g = got[i] if i < len(got) else "<no answer>"
+        ok = True if e is None else (e(g) if callable(e) else g == e)
+        if not ok:
+            chk.violation(text, "%s (API view against the statement): op %r answered %r, expected %s (rc %s)" % (
+                label, ops[i], g, "a value satisfying the statement" if callable(e) else repr(e), rc))
+            return False
+    if rc != 0:
+        chk.violation(text, "%s: harness exit code %s %s" % (label, rc, err[-300:]))
+        return False
+    chk.cov["traces_validated_against_impl"] += 1
+    return True
 
 
 def run_stress(chk, exe, args, label):
